@@ -78,12 +78,14 @@ Proof.
 Qed.
 End K.
 
-(* ---- the same statement for the issuer model used in the correspondence run (Issuer2) ---- *)
+(* ---- the same statement for the issuer model used in the correspondence run (Issuer2) ----
+   split_paths paths = Some tks says: every path string has a '/', starts with '/', and has no reference token
+   "_sd" or "..." (parse_path, repair F20); tks are the unescaped parent tokens and last token of each path *)
 Definition split_paths (paths : list string) : option (list (list string * string)) :=
-  fold_right (fun p acc => match split_path p, acc with Some tk, Some r => Some (tk :: r) | _, _ => None end) (Some []) paths.
+  fold_right (fun p acc => match parse_path p, acc with Some tk, Some r => Some (tk :: r) | _, _ => None end) (Some []) paths.
 
 Lemma split_paths_cons p ps :
-  split_paths (p :: ps) = match split_path p, split_paths ps with Some tk, Some r => Some (tk :: r) | _, _ => None end.
+  split_paths (p :: ps) = match parse_path p, split_paths ps with Some tk, Some r => Some (tk :: r) | _, _ => None end.
 Proof. reflexivity. Qed.
 
 Lemma issue_fold_issuer2 E : forall paths tks claims salts,
@@ -93,7 +95,7 @@ Lemma issue_fold_issuer2 E : forall paths tks claims salts,
 Proof.
   induction paths as [|p ps IH]; intros tks claims salts Hs.
   - cbn in Hs. injection Hs as <-. reflexivity.
-  - rewrite split_paths_cons in Hs. destruct (split_path p) as [[toks key]|] eqn:Ep; [|discriminate].
+  - rewrite split_paths_cons in Hs. destruct (parse_path p) as [[toks key]|] eqn:Ep; [|discriminate].
     destruct (split_paths ps) as [r|] eqn:Er; [|discriminate]. injection Hs as <-.
     cbn [Issuer2.issue_fold T1j.issue_fold]. destruct salts as [|salt ss]; [reflexivity|].
     unfold Issuer2.build_disclosure. rewrite Ep.
